@@ -175,6 +175,14 @@ def monitorSync (c : SyCase) (obs : String) : String :=
     ("C10.revs", C10revs i o),
     ("C10.revadopt", C10revAdopt i c.plan o),
     ("C11.freshdeleting", C11freshDeleting i o),
+    -- adoption by ANY verb: when adoption is not allowed (the set is gone, re-created or being deleted in the API, or deleting
+    -- in the cache) no revision that was not the set's own ends up controlled by it, whichever call did it
+    ("C11.revowner", (freshOk i.fresh && !i.view.deleting) ||
+        i.store.all (fun r => r.owner == .self || o.revs.all (fun d => d.name != r.name || d.owner != .self))),
+    -- migration: after a successful sync of a live, confirmed set every orphan revision it can see (selector labels or its
+    -- upgrade marker) that still exists is controlled by it
+    ("C18.adopted", o.out != "ok" || i.paused || !i.selectorOk || i.view.deleting || !freshOk i.fresh || !c.plan.isEmpty ||
+        i.store.all (fun r => !(r.owner == .none && (r.selMatch || r.marker)) || o.revs.all (fun d => d.name != r.name || d.owner == .self))),
     ("C10.set", C10set o),
     ("C10.cache", C10cache o),
     ("C13.history", C13 i c.plan o),
